@@ -57,6 +57,21 @@ func ruleC09_1(c *Ctx) {
 					cf = cfgx.New(fn, nil)
 				}
 				guards, why := findGuards(cf, call)
+				fromTerms := false
+				if why != "" || len(guards) == 0 {
+					// the flag may be spelled differently (flag = flag && pred(x)): ask the term-level model of the
+					// palette writer which "holds for every entry" flags are true where the call is made
+					if names, ok := c.paletteFlags().guardingPredicates(call); ok && c.P.FuncName(fn) == "(*encode.Encoder).Reset" {
+						guards = nil
+						for _, n := range names {
+							if pf := c.Fn("", n); pf != nil {
+								guards = append(guards, guardCall{nil, pf})
+							}
+						}
+						why = ""
+						fromTerms = true
+					}
+				}
 				if why != "" {
 					R.Unknown(construct, c.Pos(call), "ok is discarded and no recognisable guard: "+why)
 					continue
@@ -71,7 +86,18 @@ func ruleC09_1(c *Ctx) {
 				}
 				g := guards[0]
 				// same sequence?
-				if !sameElementSource(colourArgOf(call.Common().Args[0]), g.call.Common().Args[0]) {
+				// (for a guard found at term level the element and range agreement is decided by C09.4)
+				if !fromTerms && !sameElementSource(colourArgOf(call.Common().Args[0]), g.call.Common().Args[0]) {
+					// not the same SSA element: two loops over the same range (decided at term level by C09.4) are as good
+					if names, ok := c.paletteFlags().guardingPredicates(call); ok && c.P.FuncName(fn) == "(*encode.Encoder).Reset" {
+						for _, n := range names {
+							if n == g.callee.Name() {
+								fromTerms = true
+							}
+						}
+					}
+				}
+				if !fromTerms && !sameElementSource(colourArgOf(call.Common().Args[0]), g.call.Common().Args[0]) {
 					R.Bad(construct, c.Pos(call), "the guard is evaluated on the elements the encoder is applied to", "different sources")
 					continue
 				}
